@@ -105,6 +105,11 @@ def build_cases(tier, rng):
             edits.append({"op": "remove_ordered", "kind": k, "name": rng.choice(mine)})
             if k not in NO_LONGID:
                 edits.append({"op": "set_longid", "kind": k, "name": rng.choice(mine), "value": "edited through the API"})
+        groups = [n for kk, n in elems if kk == "GROUP"]
+        meas = [n for kk, n in elems if kk == "MEASUREMENT"]
+        if groups and meas:
+            for _ in range(2):
+                edits.append({"op": "append_member", "kind": "GROUP", "name": rng.choice(groups), "value": rng.choice(meas)})
         for k in ("MEASUREMENT", "CHARACTERISTIC"):
             mine = [n for kk, n in elems if kk == k]
             edits.append({"op": "set_bitmask", "kind": k, "name": rng.choice(mine), "value": 255})
